@@ -4,6 +4,7 @@ package main
 // R-MERGESHAPE, R-NOPRUNE, R-ARRAYS, R-PATCHWINS, R-CMPSHAPE.
 
 import (
+	"go/token"
 	"fmt"
 	"go/types"
 	"strings"
@@ -860,6 +861,15 @@ func ruleCmpShape(c *Ctx) {
 				l.add("R-CMPSHAPE", b.Name, key, b.posOf(cs), v, why, true)
 			}
 		}
+		// getDiff: census of the stores into the result. A member enters the patch only as (S1) b's
+		// value under b's key where a lacks the key, the dynamic types differ, or a comparison of
+		// the two values answered "different" — never inside the arm where a's value is an object,
+		// where only (S2) the non-empty recursive diff of the two objects may be stored — or as
+		// (S3) nil under a key of a that b lacks.
+		if gd := b.roleFn("getDiff"); gd != nil && len(gd.Params) == 2 {
+			b.diffStoreCensus(l, gd)
+		}
+		b.matchPairing(l)
 		// getDiff: both walks (changed/added members of b, deleted members of a) precede every successful return
 		if gd := b.roleFn("getDiff"); gd != nil && len(gd.Params) == 2 {
 			key := "getDiff: every successful return has passed both member walks (additions/changes over b, deletions over a)"
@@ -949,4 +959,466 @@ func ruleCmpShape(c *Ctx) {
 			l.add("R-CMPSHAPE", b.Name, key, b.rel(ca.Pos()), v, why, true)
 		}
 	}
+}
+
+
+func (b *Body) diffStoreCensus(l *Ledger, gd *ssa.Function) {
+	pa, pb := ssa.Value(gd.Params[0]), ssa.Value(gd.Params[1])
+	// the result map: the map value returned on success
+	var into ssa.Value
+	for _, r := range liveReturns(gd) {
+		if mm, ok := retVal(r, 0).(*ssa.MakeMap); ok {
+			into = mm
+		}
+	}
+	if into == nil {
+		l.add("R-CMPSHAPE", b.Name, "getDiff: result map", b.rel(gd.Pos()), Undecided, "the successful return does not hand out a map made in the function", false)
+		return
+	}
+	rangeOf := func(key ssa.Value) (nx *ssa.Next, over ssa.Value) {
+		ex, ok := key.(*ssa.Extract)
+		if !ok || ex.Index != 1 {
+			return nil, nil
+		}
+		n, ok := ex.Tuple.(*ssa.Next)
+		if !ok {
+			return nil, nil
+		}
+		rg, ok := n.Iter.(*ssa.Range)
+		if !ok {
+			return nil, nil
+		}
+		return n, rg.X
+	}
+	derivedFromV := func(v, root ssa.Value) bool {
+		for d := 0; d < 4 && v != nil; d++ {
+			if v == root {
+				return true
+			}
+			switch x := v.(type) {
+			case *ssa.TypeAssert:
+				v = x.X
+			case *ssa.Extract:
+				v = x.Tuple
+			case *ssa.MakeInterface:
+				v = x.X
+			case *ssa.ChangeType:
+				v = x.X
+			default:
+				return false
+			}
+		}
+		return false
+	}
+	isMapType := func(t types.Type) bool {
+		_, ok := t.Underlying().(*types.Map)
+		return ok
+	}
+	n := 0
+	kinds := map[string]int{}
+	allInstrs(gd, func(i ssa.Instruction) {
+		mu, ok := i.(*ssa.MapUpdate)
+		if !ok || mu.Map != into {
+			return
+		}
+		n++
+		key := fmt.Sprintf("getDiff: store #%d into the patch is one of the three admissible forms", n)
+		nx, over := rangeOf(mu.Key)
+		if nx == nil {
+			l.add("R-CMPSHAPE", b.Name, key, b.posOf(mu), Violated, "the member name is not the key of the member being visited", true)
+			return
+		}
+		blk := mu.Block()
+		// facts that dominate the store
+		var av ssa.Value // a's value for this key
+		lacksA := false
+		allInstrs(gd, func(j ssa.Instruction) {
+			lk, ok := j.(*ssa.Lookup)
+			if !ok || !lk.CommaOk || lk.Index != mu.Key {
+				return
+			}
+			for _, ex := range extractOf(lk, 0) {
+				if lk.X == pa {
+					av = ex
+				}
+			}
+			for _, ex := range extractOf(lk, 1) {
+				for _, f := range dominatingFacts(blk) {
+					if f.V == ssa.Value(ex) && !f.True && ((over == pb && lk.X == pa) || (over == pa && lk.X == pb)) {
+						lacksA = true
+					}
+				}
+			}
+		})
+		switch {
+		case over == pa:
+			// (S3)
+			if isNilConst(mu.Value) && lacksA {
+				kinds["S3"]++
+				l.add("R-CMPSHAPE", b.Name, key, b.posOf(mu), Discharged, "(S3) nil under a key of a that b lacks", true)
+			} else {
+				l.add("R-CMPSHAPE", b.Name, key, b.posOf(mu), Violated, "in the walk over a the only admissible store is nil under a key that b lacks (comma-ok false edge)", true)
+			}
+			return
+		case over != pb:
+			l.add("R-CMPSHAPE", b.Name, key, b.posOf(mu), Violated, "the store is not inside a walk over one of the two inputs", true)
+			return
+		}
+		var bv ssa.Value
+		for _, ex := range extractOf(nx, 2) {
+			bv = ex
+		}
+		// inside the arm where a's value is an object?
+		inObjArm := false
+		var objA ssa.Value
+		if av != nil {
+			for _, r := range *av.Referrers() {
+				ta, ok := r.(*ssa.TypeAssert)
+				if !ok || !isMapType(ta.AssertedType) {
+					continue
+				}
+				if ta.CommaOk {
+					for _, ex := range extractOf(ta, 1) {
+						for _, f := range dominatingFacts(blk) {
+							if f.V == ssa.Value(ex) && f.True {
+								inObjArm = true
+							}
+						}
+					}
+					for _, ex := range extractOf(ta, 0) {
+						objA = ex
+					}
+				} else if ta.Block().Dominates(blk) {
+					inObjArm = true
+					objA = ta
+				}
+			}
+		}
+		val := mu.Value
+		if mi, ok := val.(*ssa.MakeInterface); ok {
+			val = mi.X
+		}
+		// (S2) the recursive diff
+		if ex, ok := val.(*ssa.Extract); ok && ex.Index == 0 {
+			if call, ok := ex.Tuple.(*ssa.Call); ok && call.Call.StaticCallee() == gd {
+				bad := ""
+				if !inObjArm || call.Call.Args[0] != objA {
+					bad = "the recursion is not applied to a's value asserted to an object"
+				}
+				if !derivedFromV(call.Call.Args[1], bv) || !isMapType(call.Call.Args[1].Type()) {
+					bad = "the recursion's second operand is not b's value asserted to an object"
+				}
+				nonEmpty := false
+				for _, f := range dominatingFacts(blk) {
+					big, small, strict, ok := cmpNorm(f.V)
+					if !ok {
+						continue
+					}
+					if la, isLen := lenArg(big); isLen && la == ssa.Value(ex) && f.True {
+						if z, isZ := intConst(small); isZ && ((strict && z == 0) || (!strict && z == 1)) {
+							nonEmpty = true
+						}
+					}
+				}
+				if !nonEmpty {
+					bad = "the recursive diff is stored without a len(diff) > 0 test: unchanged nested objects appear in the patch as {}"
+				}
+				if ok, _ := b.successDominates(call, mu); !ok {
+					bad = "the recursive diff is stored without its error having been tested"
+				}
+				if bad != "" {
+					l.add("R-CMPSHAPE", b.Name, key, b.posOf(mu), Violated, bad, true)
+				} else {
+					kinds["S2"]++
+					l.add("R-CMPSHAPE", b.Name, key, b.posOf(mu), Discharged, "(S2) the non-empty diff of the two nested objects, error tested", true)
+				}
+				return
+			}
+		}
+		// (S1) b's value verbatim
+		if mu.Value != bv {
+			l.add("R-CMPSHAPE", b.Name, key, b.posOf(mu), Violated, "the stored value is "+describeValue(mu.Value)+": neither b's value for this key nor the recursive diff", true)
+			return
+		}
+		if inObjArm {
+			l.add("R-CMPSHAPE", b.Name, key, b.posOf(mu), Violated, "b's value is stored verbatim inside the arm where a's value is an object: two objects must be diffed member by member (members that only a has need a null; an unchanged pair needs nothing)", true)
+			return
+		}
+		why := ""
+		if lacksA {
+			why = "a lacks the key"
+		}
+		for _, f := range dominatingFacts(blk) {
+			// dynamic types differ
+			if bo, ok := f.V.(*ssa.BinOp); ok && (bo.Op == token.NEQ || bo.Op == token.EQL) {
+				cx, okx := bo.X.(*ssa.Call)
+				cy, oky := bo.Y.(*ssa.Call)
+				if okx && oky {
+					fx, fy := cx.Call.StaticCallee(), cy.Call.StaticCallee()
+					if fx != nil && fy != nil && stdName(fx) == "reflect.TypeOf" && stdName(fy) == "reflect.TypeOf" {
+						args := []ssa.Value{cx.Call.Args[0], cy.Call.Args[0]}
+						if ((args[0] == av && args[1] == bv) || (args[1] == av && args[0] == bv)) && (bo.Op == token.NEQ) == f.True {
+							why = "the dynamic types differ"
+						}
+					}
+				}
+				// a is null and b is not
+				if isNilConst(bo.Y) && bo.X == bv && (bo.Op == token.EQL) != f.True {
+					for _, g := range dominatingFacts(blk) {
+						if b2, ok := g.V.(*ssa.BinOp); ok && isNilConst(b2.Y) && b2.X == av && (b2.Op == token.EQL) == g.True {
+							why = "a's value is null and b's is not"
+						}
+					}
+				}
+			}
+			// a comparison of the two values answered "different"
+			if call, ok := f.V.(*ssa.Call); ok && !f.True {
+				if g := call.Call.StaticCallee(); g != nil && g.Pkg == b.Lib && len(call.Call.Args) == 2 {
+					if av != nil && derivedFromV(call.Call.Args[0], av) && derivedFromV(call.Call.Args[1], bv) {
+						why = fname(g) + " answered false for the pair"
+					}
+				}
+			}
+		}
+		if why == "" {
+			l.add("R-CMPSHAPE", b.Name, key, b.posOf(mu), Violated, "b's value is stored without a reason that the two sides differ (key absent from a, dynamic types differ, a value comparison answered false): the patch would mention a member that is equal in both documents, or hide one that changed", true)
+		} else {
+			kinds["S1"]++
+			l.add("R-CMPSHAPE", b.Name, key, b.posOf(mu), Discharged, "(S1) b's value, because "+why, true)
+		}
+	})
+	key := "getDiff: additions, changes, nested diffs and deletions all have a store"
+	if kinds["S1"] >= 3 && kinds["S2"] >= 1 && kinds["S3"] >= 1 {
+		l.add("R-CMPSHAPE", b.Name, key, b.rel(gd.Pos()), Discharged, fmt.Sprintf("%d verbatim, %d nested, %d deletion store(s)", kinds["S1"], kinds["S2"], kinds["S3"]), true)
+	} else {
+		l.add("R-CMPSHAPE", b.Name, key, b.rel(gd.Pos()), Violated, fmt.Sprintf("%d verbatim (S1), %d nested (S2), %d deletion (S3) store(s): a class of differences never reaches the patch", kinds["S1"], kinds["S2"], kinds["S3"]), true)
+	}
+}
+
+// matchPairing: the two value comparers behind the diff (matchesValue,
+// matchesArray) compare like with like. Every call of one of them from inside
+// them pairs an element of the first operand with the element of the second
+// at the same index, a member of one with the member of the other under the
+// same key, or the two operands asserted to the same type; a dominating
+// length / size comparison answers false for containers of different size;
+// and a false answer of the nested comparison makes the outer one false.
+func (b *Body) matchPairing(l *Ledger) {
+	mv := b.roleFn("matchesValue")
+	if mv == nil {
+		return
+	}
+	fns := map[*ssa.Function]bool{mv: true}
+	for _, g := range b.libCalleesOf(mv) {
+		if g != mv && g.Signature.Results().Len() == 1 && typeShort(g.Signature.Results().At(0).Type()) == "bool" && len(g.Params) == 2 {
+			fns[g] = true // matchesArray
+		}
+	}
+	sideOf := func(v ssa.Value) int {
+		for d := 0; d < 8 && v != nil; d++ {
+			switch x := v.(type) {
+			case *ssa.Parameter:
+				return paramIdx(x)
+			case *ssa.TypeAssert:
+				v = x.X
+			case *ssa.Extract:
+				v = x.Tuple
+			case *ssa.Lookup:
+				v = x.X
+			case *ssa.UnOp:
+				v = x.X
+			case *ssa.IndexAddr:
+				v = x.X
+			case *ssa.MakeInterface:
+				v = x.X
+			case *ssa.ChangeType:
+				v = x.X
+			default:
+				return -1
+			}
+		}
+		return -1
+	}
+	for fn := range fns {
+		n := 0
+		lenCheck := func(at *ssa.BasicBlock, x, y ssa.Value) bool {
+			for _, bb := range fn.Blocks {
+				iff, ok := bb.Instrs[len(bb.Instrs)-1].(*ssa.If)
+				if !ok || !bb.Dominates(at) {
+					continue
+				}
+				bo, ok := iff.Cond.(*ssa.BinOp)
+				if !ok || (bo.Op != token.NEQ && bo.Op != token.EQL) {
+					continue
+				}
+				lx, okx := lenArg(bo.X)
+				ly, oky := lenArg(bo.Y)
+				if !okx || !oky {
+					continue
+				}
+				if !((lx == x && ly == y) || (lx == y && ly == x)) {
+					continue
+				}
+				diff := 0
+				if bo.Op == token.EQL {
+					diff = 1
+				}
+				if returnsConst(bb.Succs[diff], false) && edgeDominates(bb, 1-diff, at) {
+					return true
+				}
+			}
+			return false
+		}
+		for _, ci := range callsTo(fn, func(cc *ssa.CallCommon) bool { return fns[cc.StaticCallee()] }) {
+			call, ok := ci.(*ssa.Call)
+			if !ok {
+				continue
+			}
+			n++
+			key := fmt.Sprintf("%s: nested comparison #%d pairs like with like, under a size comparison, and its false answer is final", b.canonFname(fn), n)
+			x, y := call.Call.Args[0], call.Call.Args[1]
+			bad := ""
+			form := ""
+			sx, sy := sideOf(x), sideOf(y)
+			if sx < 0 || sy < 0 || sx == sy {
+				bad = fmt.Sprintf("the two operands do not come one from each parameter (sides %d, %d)", sx, sy)
+			}
+			if bad == "" {
+				ux, okx := x.(*ssa.UnOp)
+				uy, oky := y.(*ssa.UnOp)
+				ex, okex := x.(*ssa.Extract)
+				ey, okey := y.(*ssa.Extract)
+				switch {
+				case okx && oky:
+					iax, ok1 := ux.X.(*ssa.IndexAddr)
+					iay, ok2 := uy.X.(*ssa.IndexAddr)
+					if !ok1 || !ok2 {
+						bad = "operands are loads, but not element loads"
+						break
+					}
+					form = "element"
+					if iax.Index != iay.Index {
+						bad = "an element of one side is compared with the element at a different index of the other"
+					} else if !lenCheck(call.Block(), iax.X, iay.X) {
+						bad = "no length comparison of the two slices that answers false dominates the loop: a proper prefix would match (or the index runs out of range)"
+					} else if h := innermostLoopHeader(call.Block()); h == nil || !(isRangeIndex(h, iax.Index, iax.X) || isRangeIndex(h, iax.Index, iay.X)) {
+						bad = "the index is not that of a range over the whole slice: some elements are never compared"
+					}
+				case okex && okey && isLookupExtract(ex) && isLookupExtract(ey):
+					lx, ok1 := ex.Tuple.(*ssa.Lookup)
+					ly, ok2 := ey.Tuple.(*ssa.Lookup)
+					if !ok1 || !ok2 || ex.Index != 0 || ey.Index != 0 {
+						bad = "operands are not member lookups"
+						break
+					}
+					form = "member"
+					if lx.Index != ly.Index {
+						bad = "a member of one side is compared with the member under a different key of the other"
+					} else if !lenCheck(call.Block(), lx.X, ly.X) {
+						bad = "no size comparison of the two objects that answers false dominates the loop: an object with additional members would match"
+					} else {
+						kx, isK := lx.Index.(*ssa.Extract)
+						okKey := false
+						if isK && kx.Index == 1 {
+							if nx, ok := kx.Tuple.(*ssa.Next); ok {
+								if rg, ok := nx.Iter.(*ssa.Range); ok && (rg.X == lx.X || rg.X == ly.X) {
+									okKey = true
+								}
+							}
+						}
+						if !okKey {
+							bad = "the key is not that of a range over one of the two objects"
+						}
+					}
+				default:
+					asTA := func(v ssa.Value) (*ssa.TypeAssert, bool) {
+						if e, ok := v.(*ssa.Extract); ok && e.Index == 0 {
+							v = e.Tuple
+						}
+						t, ok := v.(*ssa.TypeAssert)
+						return t, ok
+					}
+					tx, ok1 := asTA(x)
+					ty, ok2 := asTA(y)
+					if ok1 && ok2 && types.Identical(tx.AssertedType, ty.AssertedType) {
+						form = "whole value"
+					} else if ok1 && ok2 {
+						bad = "the two operands are asserted to different types"
+					} else {
+						bad = "unrecognised pairing: " + describeValue(x) + " with " + describeValue(y)
+					}
+				}
+			}
+			// false is final
+			if bad == "" {
+				final := false
+				for _, r := range *call.Referrers() {
+					switch u := r.(type) {
+					case *ssa.If:
+						if returnsConst(u.Block().Succs[1], false) {
+							final = true
+						}
+					case *ssa.Return:
+						final = true
+					case *ssa.UnOp:
+						for _, r2 := range *u.Referrers() {
+							if iff, ok := r2.(*ssa.If); ok && returnsConst(iff.Block().Succs[0], false) {
+								final = true
+							}
+						}
+					}
+				}
+				if !final {
+					bad = "a false answer of the nested comparison does not make the outer comparison false"
+				}
+			}
+			if bad != "" {
+				l.add("R-CMPSHAPE", b.Name, key, b.posOf(call), Violated, bad, true)
+			} else {
+				l.add("R-CMPSHAPE", b.Name, key, b.posOf(call), Discharged, form+" pairing; size compared; false is final", true)
+			}
+		}
+		// scalar arms: == between the two operands asserted to the same type
+		m := 0
+		allInstrs(fn, func(i ssa.Instruction) {
+			bo, ok := i.(*ssa.BinOp)
+			if !ok || (bo.Op != token.EQL && bo.Op != token.NEQ) {
+				return
+			}
+			tx, ok1 := bo.X.(*ssa.TypeAssert)
+			ty, ok2 := bo.Y.(*ssa.TypeAssert)
+			if !ok1 && !ok2 {
+				if e1, ok := bo.X.(*ssa.Extract); ok {
+					tx, ok1 = e1.Tuple.(*ssa.TypeAssert)
+				}
+				if e2, ok := bo.Y.(*ssa.Extract); ok {
+					ty, ok2 = e2.Tuple.(*ssa.TypeAssert)
+				}
+			} else {
+				if e1, ok := bo.X.(*ssa.Extract); ok && !ok1 {
+					tx, ok1 = e1.Tuple.(*ssa.TypeAssert)
+				}
+				if e2, ok := bo.Y.(*ssa.Extract); ok && !ok2 {
+					ty, ok2 = e2.Tuple.(*ssa.TypeAssert)
+				}
+			}
+			if !ok1 || !ok2 {
+				return
+			}
+			m++
+			key := fmt.Sprintf("%s: scalar comparison #%d compares the two operands asserted to one type", b.canonFname(fn), m)
+			if sideOf(tx) == sideOf(ty) || sideOf(tx) < 0 || sideOf(ty) < 0 {
+				l.add("R-CMPSHAPE", b.Name, key, b.posOf(bo), Violated, "both sides of the comparison come from the same operand", true)
+			} else if !types.Identical(tx.AssertedType, ty.AssertedType) {
+				l.add("R-CMPSHAPE", b.Name, key, b.posOf(bo), Violated, "the operands are asserted to different types", true)
+			} else {
+				l.add("R-CMPSHAPE", b.Name, key, b.posOf(bo), Discharged, "both asserted to "+typeShort(tx.AssertedType), true)
+			}
+		})
+	}
+}
+
+
+func isLookupExtract(e *ssa.Extract) bool {
+	_, ok := e.Tuple.(*ssa.Lookup)
+	return ok
 }
